@@ -78,19 +78,32 @@ func c08Root(pos int, name string) []rj.Stmt {
 // space "sets": chain length x imports x block subsets x root position
 var c08Sets = registerSpace(&e1Space{
 	Prop: "C08", Name: "sets",
-	N: func(th bool) int64 { return 3 * 3 * 256 * c08NPos * 2 * 3 },
+	N: func(th bool) int64 {
+		if th {
+			return 4 * 3 * 1024 * c08NPos * 2 * 3 // chains of 1-4, five definition slots
+		}
+		return 3 * 3 * 256 * c08NPos * 2 * 3
+	},
 	Gen: func(i int64, th bool) *rj.Program {
-		chain := int(i%3) + 1
-		i /= 3
+		nchain, nsub := int64(3), int64(256)
+		if th {
+			nchain, nsub = 4, 1024
+		}
+		chain := int(i%nchain) + 1
+		i /= nchain
 		nimp := int(i % 3)
 		i /= 3
-		subsets := int(i % 256)
-		i /= 256
+		subsets := int(i % nsub)
+		i /= nsub
 		pos := int(i % c08NPos)
 		i /= c08NPos
 		name := []string{"A", "B"}[i%2]
 		style := int(i / 2)
 		sub := func(k int) int { return (subsets >> (2 * uint(k))) & 3 }
+		impBase := 2
+		if th {
+			impBase = 3
+		}
 		var files []*rj.File
 		// l0 = root layout, l1 extends l0, l2 extends l1; the entry is the last of the chain
 		root := &rj.File{Name: "/l0.jet", Body: c08Root(pos, name)}
@@ -106,7 +119,7 @@ var c08Sets = registerSpace(&e1Space{
 		entry := prev
 		for m := 0; m < nimp; m++ {
 			f := &rj.File{Name: fmt.Sprintf("/i%d.jet", m+1)}
-			f.Body = append([]rj.Stmt{rj.T("import-stray")}, c08Defs(fmt.Sprintf("i%d", m+1), sub(2+m), 0)...)
+			f.Body = append([]rj.Stmt{rj.T("import-stray")}, c08Defs(fmt.Sprintf("i%d", m+1), sub(impBase+m), 0)...)
 			files = append(files, f)
 			entry.Imports = append(entry.Imports, f.Name)
 		}
@@ -279,12 +292,18 @@ func c08Sib(k, id int) []rj.Stmt {
 
 var c08Siblings = registerSpace(&e1Space{
 	Prop: "C08", Name: "siblings",
-	N: func(th bool) int64 { return (1 + c08NSib + c08NSib*c08NSib + c08NSib*c08NSib*c08NSib) * 3 },
+	N: func(th bool) int64 {
+		n := int64(1 + c08NSib + c08NSib*c08NSib + c08NSib*c08NSib*c08NSib)
+		if th {
+			n += pow(c08NSib, 4) + pow(c08NSib, 5)
+		}
+		return n * 3
+	},
 	Gen: func(i int64, th bool) *rj.Program {
 		where := int(i % 3)
 		i /= 3
 		n := 0
-		for n = 0; n <= 3; n++ {
+		for n = 0; n <= 5; n++ {
 			if i < pow(c08NSib, int64(n)) {
 				break
 			}
